@@ -607,6 +607,124 @@ func startStopRace(r *h.Run, idx int) {
 	r.NonTrivial(fmt.Sprintf("race:%d:%v", idx, ops))
 }
 
+// offlineOrder: commands issued while the broker is unreachable are carried out
+// once online, in the order issued. One caller issues numbered commands; the
+// command queue is small (so the caller keeps running into a full queue) or
+// large; the first dials are refused. Nothing is cut afterwards, so every
+// command must reach the scripted broker, in order.
+func offlineOrder(r *h.Run, idx int) {
+	if r.TooMany() {
+		return
+	}
+	rng := r.Rand(fmt.Sprintf("c17-order-%d", idx))
+	total := 20 + rng.Intn(40)
+	qsize := []int{3, 4, 8, 100}[idx%4]
+	refuse := 1 + idx%3
+	r.Journal("C17 offline order #%d commands=%d queue=%d refused-dials=%d", idx, total, qsize, refuse)
+	srv := ch.NewServer()
+	srv.OnDial = func(n int) error {
+		if n <= refuse {
+			return ch.ErrRefused
+		}
+		return nil
+	}
+	srv.Prep = func(c *ch.Conn) { c.Peer.AutoReply = ch.Broker(false, nil) }
+	s := client.NewService(qsize)
+	s.MinReconnectDelay, s.MaxReconnectDelay = time.Millisecond, 3*time.Millisecond
+	s.QueueTimeout = 30 * time.Second
+	s.Start(ch.Config(srv, "c17-order", true))
+	issued := make(chan struct{})
+	go func() {
+		defer close(issued)
+		for i := 0; i < total; i++ {
+			tag := fmt.Sprintf("ord/%04d", i)
+			switch rng.Intn(3) {
+			case 0:
+				s.Publish(tag, []byte("x"), packet.QOS(i%3), false)
+			case 1:
+				s.Subscribe(tag, packet.QOS(i%3))
+			default:
+				s.Unsubscribe(tag)
+			}
+		}
+	}()
+	select {
+	case <-issued:
+	case <-time.After(bh.Watchdog):
+		r.Inconclusive(fmt.Sprintf("offline order #%d: the caller was still blocked on the command queue after the watchdog", idx))
+		go s.Stop(true)
+		return
+	}
+	conn := srv.WaitConn(1, bh.Watchdog)
+	if conn == nil {
+		r.Inconclusive(fmt.Sprintf("offline order #%d: the service never got a connection", idx))
+		go s.Stop(true)
+		return
+	}
+	numOf := func(g packet.Generic) int {
+		t := ""
+		switch v := g.(type) {
+		case *packet.Publish:
+			if v.Dup {
+				return -1 // a retransmission is not the execution of a command
+			}
+			t = v.Message.Topic
+		case *packet.Subscribe:
+			if len(v.Subscriptions) == 1 {
+				t = v.Subscriptions[0].Topic
+			}
+		case *packet.Unsubscribe:
+			if len(v.Topics) == 1 {
+				t = v.Topics[0]
+			}
+		}
+		if !strings.HasPrefix(t, "ord/") {
+			return -1
+		}
+		var k int
+		fmt.Sscanf(strings.TrimPrefix(t, "ord/"), "%d", &k)
+		return k
+	}
+	ok := conn.Peer.WaitCond(bh.Watchdog, func(all []packet.Generic) bool {
+		n := 0
+		for _, g := range all {
+			if numOf(g) >= 0 {
+				n++
+			}
+		}
+		return n >= total
+	})
+	var order []int
+	for _, g := range conn.Peer.All() {
+		if k := numOf(g); k >= 0 {
+			order = append(order, k)
+		}
+	}
+	if !ok {
+		if len(srv.Conns()) > 1 {
+			r.Inconclusive(fmt.Sprintf("offline order #%d: the service reconnected although nothing cut the connection", idx))
+		} else {
+			r.Violation("offline-commands-not-carried-out", fmt.Sprintf("offline order #%d: %d commands were issued while the broker was unreachable (queue %d), %d reached it once online: %v", idx, total, qsize, len(order), order), map[string]interface{}{"arrival_order": order, "event_log_tail": srv.Log.Dump(80)})
+		}
+	} else {
+		for i := 1; i < len(order); i++ {
+			if order[i] <= order[i-1] {
+				r.Violation("offline-commands-out-of-order", fmt.Sprintf("offline order #%d (queue %d, %d refused dials): command #%d was carried out after #%d; arrival order %v", idx, qsize, refuse, order[i], order[i-1], order), map[string]interface{}{"arrival_order": order, "event_log_tail": srv.Log.Dump(80)})
+				break
+			}
+		}
+	}
+	stopped := make(chan struct{})
+	go func() { s.Stop(true); close(stopped) }()
+	select {
+	case <-stopped:
+	case <-time.After(bh.Watchdog):
+		r.Inconclusive("offline order: Stop did not return")
+	}
+	r.Eval()
+	r.NonTrivial(fmt.Sprintf("order:%d:%d", qsize, refuse))
+}
+
 // stopWhileOffline: commands are issued while the broker is unreachable, then
 // the service is stopped and asked to cancel all pending futures.
 func stopWhileOffline(r *h.Run, idx int, kind string, ncmd int) {
@@ -745,6 +863,9 @@ func TestCheck(t *testing.T) {
 	}
 	r.Count("scenarios", int64(len(list)))
 	h.Parallel(len(list), 16, func(i int) { run(r, i, list[i]) })
+	nOrd := r.Pick(40, 1500)
+	h.Parallel(nOrd, 8, func(i int) { offlineOrder(r, i) })
+	r.Count("offline_order_runs", int64(nOrd))
 	nOff := r.Pick(40, 2000)
 	h.Parallel(nOff, 16, func(i int) {
 		stopWhileOffline(r, i, []string{"dial-refused", "no-connack"}[i%2], 1+i%9)
